@@ -15,6 +15,7 @@ read from `cargo check --message-format=json`, keyed by line.
 """
 import json
 import os
+import zlib
 import random
 import shutil
 import subprocess
@@ -67,8 +68,8 @@ def pos_module(idx, d, text, info, nostd):
     conc = info['concrete']
     asy = info['async']
     MT = (lambda s: f'{M}<{s}>') if conc else (lambda s: f'{M}<Ctx, {s}>')
-    L = [f'pub mod m{idx} {{', 'use super::*;', 'use state_machines::state_machine;', 'state_machine! {', text, '}',
-         hooks_impl(d, info)]
+    L = [f'pub mod m{idx} {{', 'pub mod def {', 'use super::super::*;', 'use state_machines::state_machine;', 'state_machine! {', text, '}',
+         hooks_impl(d, info), '}', 'use super::*;', 'use def::*;']
     states = [s['name'] for s in info['states']]
     for s in states + info['superstates']:
         L.append(f'const _: () = assert!(core::mem::size_of::<{s}>() == 0);')
@@ -96,10 +97,13 @@ def probe_module(idx, d, text, info):
     conc = info['concrete']
     asy = info['async']
     MT = (lambda s: f'{M}<{s}>') if conc else (lambda s: f'{M}<Ctx, {s}>')
-    L = [f'pub mod p{idx} {{', 'use super::*;', 'use state_machines::state_machine;', 'state_machine! {']
+    # the definition (with the user's hooks) lives in its own module; everything is used from a sibling, as a
+    # caller in another module would: what the macro generates must be `pub`
+    L = [f'pub mod p{idx} {{', 'pub mod def {', 'use super::super::*;', 'use state_machines::state_machine;', 'state_machine! {']
     L += text.split('\n')
     L += ['}']
     L += hooks_impl(d, info).split('\n')
+    L += ['}', 'use super::*;', 'use def::*;']
     probes = []
     states = [s['name'] for s in info['states']]
     evp = {e['name']: e for e in info['events']}
@@ -217,7 +221,7 @@ def check_ill_suspects(ill_suspects, root, repo):
     compile each with trivial hooks; the ones rustc accepts are concrete C13 failing inputs"""
     accepted = []
     tdir = os.path.join(root, 'target_illsus')
-    for k, (rule, d) in enumerate(ill_suspects):
+    for k, (rule, d, orig_id) in enumerate(ill_suspects):
         if rule.startswith('R11'):
             continue
         try:
@@ -227,7 +231,7 @@ def check_ill_suspects(ill_suspects, root, repo):
                     'concrete': any(it[0] == 'context' for it in td),
                     'async': any(it[0] == 'async' and it[1] for it in td),
                     'states': [{'name': leaves[0] if leaves else 'X'}]}
-            text = D.to_text(td)
+            text = D.to_text(td, random.Random(zlib.crc32(orig_id.encode())))
         except Exception:
             continue
         src = PRELUDE_STD + f'pub mod i{k} {{\nuse super::*;\nuse state_machines::state_machine;\nstate_machine! {{\n{text}\n}}\n'
